@@ -363,13 +363,32 @@ class Check:
         cov = self.cov
         if "distinct_nontrivial" not in cov and self._distinct:
             cov["distinct_nontrivial"] = len(self._distinct)
+        # keep the evidence file valid against EVIDENCE.schema.json whatever a check put into coverage
+        INT_KEYS = ("evaluations", "distinct_nontrivial", "states", "transitions", "traces_validated_against_impl", "obligations",
+                    "discharged", "programs", "disagreements_checked")
+        for k in INT_KEYS:
+            if k in cov and not (isinstance(cov[k], int) and not isinstance(cov[k], bool) and cov[k] >= 0):
+                cov[k + "_note"] = cov.pop(k)
+        if "exhaustive" in cov and not isinstance(cov["exhaustive"], bool):
+            cov["exhaustive_note"] = cov.pop("exhaustive")
+            cov["exhaustive"] = False
+        for k in ("rule", "checker_cmd", "explanation"):
+            if k in cov and not isinstance(cov[k], str):
+                cov[k] = json.dumps(cov[k])
+        if "samples" in cov and not isinstance(cov["samples"], list):
+            cov["samples"] = [cov["samples"]]
+        if "trusted_base" in cov and not (isinstance(cov["trusted_base"], list) and all(isinstance(x, str) for x in cov["trusted_base"])):
+            cov["trusted_base"] = [str(x) for x in (cov["trusted_base"] if isinstance(cov["trusted_base"], list) else [cov["trusted_base"]])]
         ev = {"property_id": self.prop, "tier": self.tier, "seed": seed(), "level": self.level,
               "coverage": cov, "assumptions": self.assumptions, "wall_s": round(wall, 2),
               "violations": len(self.violations)}
         if self.known_hits:
             ev["known_findings_hit"] = sorted(self.known_hits)
-        os.makedirs(os.path.join(VERIF, "evidence"), exist_ok=True)
-        with open(os.path.join(VERIF, "evidence", self.prop + ".json"), "w") as f:
+        # a run against another source tree (VERIF_REPO=<scratch worktree>, used for mutation experiments) must not
+        # overwrite the evidence of the unchanged tree
+        evdir = os.path.join(VERIF, "evidence") if os.path.abspath(REPO) == "/repo" else os.path.join(OUT, "evidence-exp")
+        os.makedirs(evdir, exist_ok=True)
+        with open(os.path.join(evdir, self.prop + ".json"), "w") as f:
             json.dump(ev, f, indent=1, sort_keys=True)
             f.write("\n")
         for k, t in sorted(self.known_hits.items()):
